@@ -1204,3 +1204,26 @@ fn test_u128_u32_roundtrip() {
         assert_eq!(u32_to_u128(a, b, c, d), *val);
     }
 }
+
+#[cfg(num_bigint_verif)]
+impl BigUint {
+    /// The raw digit vector, least significant digit first, exactly as stored.
+    pub fn verif_raw(&self) -> &[BigDigit] {
+        &self.data
+    }
+
+    /// Capacity of the digit vector.
+    pub fn verif_capacity(&self) -> usize {
+        self.data.capacity()
+    }
+
+    /// Reserve room for `extra` more digits without changing the value.
+    pub fn verif_reserve(&mut self, extra: usize) {
+        self.data.reserve(extra);
+    }
+
+    /// Shrink the digit vector's capacity to its length.
+    pub fn verif_shrink(&mut self) {
+        self.data.shrink_to_fit();
+    }
+}
